@@ -265,9 +265,10 @@ static void mode_candidates (int maxlen)
 
 static guchar h_data1[sizeof (Header) + 8], h_data2[sizeof (Header) + 8];
 
+static GIRepositoryPrivate h_priv;
+
 static void mode_conflict (void)
 {
-  static GIRepositoryPrivate priv;
   int use_default = __llsym_choice ("use_default", -1, 2);
   int allow_lazy = __llsym_choice ("allow_lazy", -1, 2);
   int has_version = __llsym_choice ("has_version", -1, 2);
@@ -282,9 +283,9 @@ static void mode_conflict (void)
 
   h_is_loaded = __llsym_choice ("loaded", -1, 2);
   h_is_lazy = __llsym_choice ("lazy", -1, 2);
-  priv.typelibs = (GHashTable *) &h_tag_typelibs;
-  priv.lazy_typelibs = (GHashTable *) &h_tag_lazy;
-  h_repo.priv = &priv;
+  h_priv.typelibs = (GHashTable *) &h_tag_typelibs;
+  h_priv.lazy_typelibs = (GHashTable *) &h_tag_lazy;
+  h_repo.priv = &h_priv;
   version = h_string ("v", 0, h_vbuf[0], 6, lenv);
   /* the namespace version of the registered typelibs: last bytes of their images */
   v1 = h_string ("l", 0, (char *) h_data1, sizeof h_data1, len1);
@@ -346,8 +347,27 @@ static void mode_split (void)
   char *glob = (char *) h_data3 + sizeof (Header) + 1, *dep[2];
   GError *err = NULL;
 
-  h_loaded_typelib.data = h_data3;
-  h_loaded_typelib.len = sizeof h_data3;
+  static GITypelib self;                  /* the typelib whose dependencies are loaded */
+  self.data = h_data3;
+  self.len = sizeof h_data3;
+  /* registration state of the dependency namespaces: anything - not loaded, loaded or lazily
+   * loaded, with a version equal to the recorded one or not (three arbitrary bytes).  The
+   * property wants every recorded dependency required AT THE RECORDED VERSION, so that a
+   * loaded other version surfaces as g_irepository_require's conflict error: the kernel must
+   * not decide by itself that a registered namespace is good enough. */
+  h_is_loaded = __llsym_choice ("loaded", -1, 2);
+  h_is_lazy = __llsym_choice ("lazy", -1, 2);
+  h_priv.typelibs = (GHashTable *) &h_tag_typelibs;
+  h_priv.lazy_typelibs = (GHashTable *) &h_tag_lazy;
+  h_repo.priv = &h_priv;
+  h_loaded_typelib.data = h_data1;
+  h_loaded_typelib.len = sizeof h_data1;
+  h_lazy_typelib.data = h_data1;
+  h_lazy_typelib.len = sizeof h_data1;
+  ((Header *) h_data1)->nsversion = sizeof (Header);
+  for (i = 0; i < 3; i++)
+    h_data1[sizeof (Header) + i] = __llsym_nondet_u8 ("l", i);
+  h_data1[sizeof (Header) + 3] = 0;
   pos = 0;
   for (n = 0; n < ndeps; n++)
     {
@@ -368,7 +388,7 @@ static void mode_split (void)
     }
   ((Header *) h_data3)->dependencies = ndeps ? (guint32) (glob - (char *) h_data3) : 0;
 
-  ret = load_dependencies_recurse (&h_repo, &h_loaded_typelib, &err);
+  ret = load_dependencies_recurse (&h_repo, &self, &err);
 
   /* oracle: one require per entry, in order, until the first failure */
   for (n = 0; n < ndeps; n++)
